@@ -156,8 +156,50 @@ pub fn check_scripted(fgi: usize, bgi: usize, data: &[u8], script: &[Step], st: 
     let mut w: Box<dyn Write> = Box::new(Scripted(shared.clone()));
     let ret = w.write_colored(fg, bg, data);
     let sh = shared.borrow();
-    // the data write: the only call that offers exactly the data
-    let didx = sh.calls.iter().position(|c| c.offered == data);
+    // the data write: the first inner write after the (up to two) colour codes have been written completely.  A code
+    // is written with write_all semantics (retried on a short count / Interrupted), the data with a single write.
+    let ncodes = fg.is_some() as usize + bg.is_some() as usize;
+    let didx = {
+        let calls = &sh.calls;
+        let mut idx = 0;
+        let mut group = 0;
+        let mut found = None;
+        while idx < calls.len() {
+            if group == ncodes {
+                found = Some(idx);
+                break;
+            }
+            let mut remaining = calls[idx].offered.len();
+            while idx < calls.len() {
+                let c = &calls[idx];
+                idx += 1;
+                match c.step {
+                    Step::Interrupted => continue,
+                    Step::WouldBlock | Step::Other => {
+                        idx = calls.len();
+                        break;
+                    }
+                    _ => {
+                        if c.accepted == 0 && remaining > 0 {
+                            idx = calls.len(); // WriteZero
+                            break;
+                        }
+                        remaining -= c.accepted.min(remaining);
+                        if remaining == 0 {
+                            break;
+                        }
+                    }
+                }
+            }
+            group += 1;
+        }
+        found
+    };
+    if let Some(d) = didx {
+        if sh.calls[d].offered != data {
+            return Err(("c17:scripted:data-write".into(), format!("inner write {d} should be the single data write but offers {:?} instead of {:?}", show(&sh.calls[d].offered), show(data))));
+        }
+    }
     // which fault (if any) must have surfaced: the first fatal one in call order
     let mut fatal: Option<(usize, ErrorKind)> = None;
     for (i, c) in sh.calls.iter().enumerate() {
